@@ -15,6 +15,13 @@ Ops     : ("align", member letter, noise level): the target is member(source) + 
           ("alignf", member, noise, source form, target form): the same for a reduced member alphabet with source
           and/or target presented as float32 / int64 / int32 / int16 / uint8 / list / tuple / read-only /
           non-contiguous / Fortran-ordered data, or the options as numpy bools (level 0 only).
+          ("refuse", kind) on the live alignment of a level-1 state (self loops): set_target with n+1 / n-1 points
+          or another dimensionality, apply to points of another dimensionality, PWA apply with a point outside
+          every source triangle (plain and batched), constructor calls with mismatched sizes / dimensionalities,
+          3-D data for TPS / PWA, a singular (collinear) source for the affine fit, GPA with one source.  Oracle:
+          the documented exception (and containment mask) is raised, an immediate retry and a retry after valid
+          calls are refused identically, observe(alignment) and every argument are unchanged; ("recheck",) then
+          runs the normal oracles on that same live object.
 Oracle  : reference models in plain numpy, written without SVD where menpo uses one
           (rotation: closed-form angle in 2-D, Horn's quaternion eigenvector in 3-D; affine: lstsq;
           translation: centroid difference; scale: ratio of centred Frobenius norms; PWA: point-in-triangle by
@@ -500,7 +507,9 @@ class C07(Check):
         self._exact = True  # the target is exactly member(source) at noise 0 (false when it had to be rounded)
 
     def depth(self):
-        return 1 if self.tier == "quick" else 2
+        # level 0: construct an alignment; level 1: refused calls + re-check on that same live alignment
+        # (thorough: also a second alignment built from the aligned source)
+        return 2
 
     # ------------------------------------------------------------------ roots
     def roots(self):
@@ -546,13 +555,14 @@ class C07(Check):
     def build(self, root):
         cls, d, letter = root
         s = self._source(d, letter)
-        st = {"root": root, "cls": cls, "d": d, "S": s, "chain_ok": True, "tri": None, "level": 0}
+        st = {"root": root, "cls": cls, "d": d, "S": s, "chain_ok": True, "tri": None, "level": 0, "live": None, "tkey": None}
         if cls in PWA:
             st["tri"] = pwa_layout(self.seed, "c07-src")[1] if letter == "L5" else delaunay(s)
         return st
 
     def canon(self, st):
-        return (st["cls"], st["d"], st["level"] > 0, st["chain_ok"], obs_key(st["S"]))
+        # tkey = (target, forms) of the live alignment the refused-call letters act on
+        return (st["cls"], st["d"], st["level"] > 0, st["chain_ok"], obs_key(st["S"]), st["tkey"])
 
     # ------------------------------------------------------------------ alphabet
     def _guard(self, st):
@@ -584,7 +594,7 @@ class C07(Check):
         cls, d = st["cls"], st["d"]
         if cls in GPA:
             if level > 0:
-                return []
+                return [("refuse", "gpa:one-source")] if level == 1 else []
             out = [("gpa", k, nz) for k in range(len(gpa_triples(d))) for nz in NOISE[self.tier]]
             for fs, ft in FORM_PAIRS:
                 if not self._form_enabled(cls, fs, ft):
@@ -609,14 +619,33 @@ class C07(Check):
                             continue  # the image must stay inside the range of the unsigned type
                         out.append(("alignf", m, nz, fs, ft))
             return out
+        out = []
+        live = st["live"]
+        if level == 1 and live is not None and live["forms"] == ("f64", "f64") and live["noise"] in NOISE_CHAIN:
+            # refused calls on the live alignment (self loops), each group followed by the normal oracle on the
+            # same live object
+            out += [("refuse", k) for k in ("set_target:n+1", "set_target:n-1", "set_target:dims")] + [("recheck",)]
+            out += [("refuse", "apply:dims")]
+            if cls in PWA:
+                out += [("refuse", "apply:outside"), ("refuse", "apply:outside-batched")]
+            out += [("recheck",)]
+            out += [("refuse", "construct:n-mismatch"), ("refuse", "construct:dims")]
+            if cls in TPS + PWA and not cls.endswith("-pc"):
+                # (a PointCloud source is triangulated first: in 3-D scipy's Qhull, not menpo, decides the outcome)
+                out.append(("refuse", "construct:3d"))
+            if cls == "Aff":
+                out.append(("refuse", "construct:singular"))
+            out += [("recheck",)]
+        if self.tier != "thorough":
+            return out
         if not st["chain_ok"]:
             self.note("chain:not-expanded(arbitrary-or-noisy-parent)")
-            return []
+            return out
         if not self._guard(st):
             self.note("chain:not-expanded(guard)")
-            return []
+            return out
         self.note("chain:expanded")
-        return [("align", m, nz) for nz in NOISE_CHAIN for m in member_letters(d, "small")]
+        return out + [("align", m, nz) for nz in NOISE_CHAIN for m in member_letters(d, "small")]
 
     # ------------------------------------------------------------------ argument forms
     # (class, form) combinations that the unchanged tree does not accept or mishandles in a way the property
@@ -725,6 +754,10 @@ class C07(Check):
     def apply(self, st, op, verify=True):
         if op[0] in ("gpa", "gpaf"):
             return self._apply_gpa(st, op, verify)
+        if op[0] == "refuse":
+            return self._apply_refuse(st, op, verify)
+        if op[0] == "recheck":
+            return self._apply_recheck(st, verify)
         cls, d = st["cls"], st["d"]
         if op[0] == "alignf":
             _, member, noise, fs, ft = op
@@ -755,9 +788,120 @@ class C07(Check):
                 return fails
             raise
         st["level"] += 1
+        st["live"] = {"al": al, "src": src, "tgt": tgt, "s": s, "t": t, "member": member, "noise": noise, "forms": (fs, ft), "tri": tri}
+        st["tkey"] = (obs_key(t), fs, ft)
         # deeper levels: only behind an affine family member with noise 0 or 0.1 (the image of a general-position
         # source under such a map is again in general position; the guard is re-evaluated on the real output)
         st["chain_ok"] = member[0] != "arb" and noise in NOISE_CHAIN and op[0] == "align"
+        return fails
+
+    # ------------------------------------------------------------------ refused calls on the live alignment
+    def _apply_recheck(self, st, verify):
+        """the normal oracles once more on the same live alignment (after whatever refused calls came before)."""
+        lv = st["live"]
+        self._k, self._form, self._exact = 1.0, lv["forms"], True
+        self.note("recheck:after-refused-calls")
+        if not verify:
+            return []
+        fails = self._oracle(st["cls"], st["d"], lv["al"], lv["src"], lv["tgt"], lv["s"], lv["t"], lv["member"], lv["noise"], st)
+        return [Failure(f.where, f.clause + "(after-refused-call)", f.detail) for f in fails]
+
+    def _refusal(self, st, kind):
+        """(thunk, expected exception name, expected outside-mask or None, list of (argument object, value copy))."""
+        from menpo.shape import PointCloud
+
+        cls, d = st["cls"], st["d"]
+        if kind == "gpa:one-source":
+            from menpo.transform import GeneralizedProcrustesAnalysis
+
+            pc = PointCloud(st["S"].copy())
+            return (lambda: GeneralizedProcrustesAnalysis([pc])), "ValueError", None, [(pc, st["S"].copy())]
+        lv = st["live"]
+        al, s, t = lv["al"], lv["s"], lv["t"]
+        n = len(s)
+        if kind.startswith("set_target") or kind.startswith("construct"):
+            what = kind.split(":")[1]
+            if what == "n+1":
+                bad = np.vstack([t, t.mean(axis=0)[None] + 1.0])
+            elif what in ("n-1", "n-mismatch"):
+                bad = t[:-1].copy()
+            elif what == "dims":
+                bad = np.hstack([t, np.arange(1.0, n + 1)[:, None]]) if d == 2 else t[:, :2].copy()
+            elif what == "3d":
+                bad = np.hstack([t, np.arange(1.0, n + 1)[:, None]])
+            else:  # singular: every source point on one line through the origin
+                bad = t.copy()
+            pc = PointCloud(bad.copy())
+            args = [(pc, bad.copy())]
+            if kind.startswith("set_target"):
+                return (lambda: al.set_target(pc)), "ValueError", None, args
+            s2 = s
+            if what == "3d":
+                s2 = np.hstack([s, np.arange(2.0, n + 2)[:, None] ** 2 % 5])
+            if what == "singular":
+                s2 = np.outer(np.arange(1.0, n + 1), np.arange(1.0, d + 1))
+                return (lambda: self._construct(cls, s2, bad, lv["tri"])), "LinAlgError", None, args
+            tri = lv["tri"]
+            return (lambda: self._construct(cls, s2, bad, tri)), "ValueError", None, args
+        if kind == "apply:dims":
+            pts = np.hstack([s, np.arange(1.0, n + 1)[:, None]]) if d == 2 else s[:, :2].copy()
+            return (lambda: al.apply(pts)), "ValueError", None, [(pts, pts.copy())]
+        if kind in ("apply:outside", "apply:outside-batched"):
+            tri = np.asarray(al.trilist)
+            c0, c1 = s[tri[0]].mean(axis=0), s[tri[-1]].mean(axis=0)
+            far = s.max(axis=0) + 100.0
+            pts = np.array([c0, far, c1, 0.5 * (c0 + s[tri[0][0]])])
+            mask = np.array([False, True, False, False])
+            if kind == "apply:outside":
+                return (lambda: al.apply(pts)), "TriangleContainmentError", mask, [(pts, pts.copy())]
+            return (lambda: al.apply(pts, batch_size=2)), "TriangleContainmentError", mask, [(pts, pts.copy())]
+        raise ValueError(kind)
+
+    def _apply_refuse(self, st, op, verify):
+        from mc.observe import obs_diff, observe
+
+        kind = op[1]
+        call, exp, mask, args = self._refusal(st, kind)
+
+        def run():
+            try:
+                r = call()
+            except Exception as ex:  # noqa - the outcome of a refused call IS the exception; it is compared below
+                m = getattr(ex, "points_outside_source_domain", None)
+                return (type(ex).__name__, None if m is None else tuple(bool(x) for x in np.asarray(m)))
+            return ("returned", type(r).__name__)
+
+        if not verify:
+            run()
+            return []
+        where = "%s/%dd" % (st["cls"], st["d"])
+        fails = []
+
+        def bad(clause, detail):
+            fails.append(Failure(where, clause, "refused call %s: %s" % (kind, detail)))
+
+        lv = st["live"]
+        before = observe(lv["al"]) if lv is not None else None  # (for a PWA this is itself a valid apply)
+        r1 = run()
+        r2 = run()  # the immediate retry, before anything else touches the object
+        after = observe(lv["al"]) if lv is not None else None
+        r3 = run()  # and once more after valid calls (the observation applies the transform to probe points)
+        want = (exp, None if mask is None else tuple(bool(x) for x in mask))
+        self.note("refused:%s:%s" % (kind, r1[0]))
+        if r1 != want:
+            bad("refusal", "expected %r, outcome %r" % (want, r1))
+        if r2 != r1 or r3 != r1:
+            bad("refusal-repeatable", "first call %r, immediate retry %r, retry after valid calls %r" % (r1, r2, r3))
+        if lv is not None:
+            diff = obs_diff(before, after)
+            if diff is not None:
+                bad("refusal-changed-state", "the alignment differs after the refused call: %s" % diff)
+            if not np.array_equal(lv["src"].points, lv["s"]) or not np.array_equal(lv["tgt"].points, lv["t"]):
+                bad("refusal-changed-state", "source / target passed at construction were modified")
+        for obj, val in args:
+            cur = obj.points if hasattr(obj, "points") else obj
+            if not np.array_equal(np.asarray(cur), val):
+                bad("refusal-changed-state", "an argument of the refused call was modified")
         return fails
 
     def _t(self, tol):
@@ -1258,6 +1402,8 @@ class C07(Check):
         ]
         need += ["centroid+size:%s" % c for c in ("Sim", "SimM", "SimNR", "SimNRM", "GPA")]
         need += ["form:%s>%s" % p for p in FORM_PAIRS]
+        need += ["refused:%s:ValueError" % k for k in ("set_target:n+1", "set_target:n-1", "set_target:dims", "apply:dims", "construct:n-mismatch", "construct:dims", "construct:3d", "gpa:one-source")]
+        need += ["refused:apply:outside:TriangleContainmentError", "refused:apply:outside-batched:TriangleContainmentError", "refused:construct:singular:LinAlgError", "recheck:after-refused-calls"]
         need.append("form:integer-target-is-exact-image-of-noninteger-source")
         if self.tier == "thorough":
             need.append("chain:expanded")
@@ -1267,6 +1413,7 @@ class C07(Check):
         return (
             "every (class/option letter, source letter) root x every (family member, noise level) target: the real "
             "alignment is constructed and compared with closed-form references and exhaustive competitor grids; "
+            "then refused calls (self loops) and a re-check on the same live alignment; "
             "thorough: the aligned source returned by menpo becomes the source of a second alignment (reduced member alphabet)"
         )
 
@@ -1297,6 +1444,7 @@ class C07(Check):
             "centroid clause applied to similarity alignments only; uniform scale: size clause (DESIGN.md [interp])",
             "deeper levels are expanded only behind an affine-family member with noise level 0 or 0.1 and while the chained source passes the guard (distance >= %g, area >= %g, singular value >= %g)" % (GUARD_DIST, GUARD_AREA, GUARD_SV),
             "GPA: the clauses of the similarity alignment are applied to every returned transform against the target it reports; convergence itself is recorded, not demanded",
+            "refused-call letters act on the live alignment built by a float64 'align' op with noise 0 or 0.1 (level 1, self loops); expected refusals: ValueError (set_target / apply / constructor with wrong size or dimensionality, TPS / PWA on 3-D data, GPA with one source), TriangleContainmentError with the exact outside mask (PWA), numpy LinAlgError (affine fit of collinear points); PWA from a 3-D PointCloud is not a letter (scipy's Qhull decides the outcome before menpo's check)",
             "argument forms (level 0, members %s, noise %s): float32 / int64 / int32 / int16 / uint8 payload (integer forms: the generic points x %g rounded; an integer target with a non-integer source is the exact image, source = member^-1(target)), python lists / tuples, read-only, non-contiguous and Fortran-ordered arrays (copy=False), options as numpy bools; the reference works in float64 on exactly the values passed; float32 letters use tolerances of 1e-3..1e-4; combinations the unchanged tree mishandles (listed under argument_form_exclusions) are not letters" % (", ".join(FORM_FAMILIES), NOISE_FORM, INT_SCALE),
             "noise = level x one fixed direction per (n, d) drawn from the seed; 'arbitrary' targets are unrelated generic point sets",
         ]
